@@ -11,6 +11,7 @@ mod serdeh;
 mod payload;
 mod sized;
 mod slices;
+mod swapfam;
 mod thin;
 mod threads;
 mod uninit;
@@ -113,6 +114,7 @@ fn replay(args: &[String]) {
             "thin" => thin::replay_line(nslots, h, x),
             "uninit" => uninit::replay_line(nslots, h, x),
             "slices" => slices::replay_line(nslots, h, x),
+            "swap" => swapfam::replay_line(nslots, h, x),
             _ => usage(),
         };
         n_replayed += 1;
